@@ -256,7 +256,10 @@ structure VState where
 def band (pmin pmax : F) : Adapt F := { (adaptCreate : Adapt F) with postMin := pmin, postMax := pmax }
 
 def vstep (st : VState) (line : String) : VState × String :=
-  let ws := words line
+  -- `QM` prefixes the two records of a function-level smoother call (`qsmooth`)
+  let ws := match words line with
+    | "QM" :: r => r
+    | w => w
   match ws with
   | "ok" :: _ => (st, "ok")
   | "bad-op" :: _ => (st, "ok bad-op")
@@ -295,7 +298,12 @@ def vstep (st : VState) (line : String) : VState × String :=
       let guard := collapseEdgeRatio a rat cells a0 a1
       let sel := collapseSelected a (nodeMinRatio a rat (collapseOld cells a1) a1)
       (st', if !guard then "bad collapse: ref_collapse_edge called although the modelled ref_collapse_edge_ratio refuses"
-            else if !sel then "bad selection: collapsed vertex has no incident edge shorter than collapse_ratio"
+            else if !sel && cells.any (·.length == 4) then
+              "bad selection: collapsed vertex has no incident edge shorter than collapse_ratio"
+            -- planar grids: ref_collapse_pass resets the work list of the neighbours of a collapse through
+            -- `ref_grid_tet` (empty when `ref_grid_twod`), so a target chosen at the start of the pass can have lost
+            -- its short edge by the time it is processed (stale target; every guard still applies)
+            else if !sel then "ok collapse guard stale-target-2d"
             else "ok collapse guard")
     | _, _, _, _, _, _ => (st, "bad CB: malformed")
   | "CA" :: p :: q :: rest =>
